@@ -74,7 +74,7 @@ theorem takeFrom_get (i j : SigId) :
 
 theorem deliverTo_get (i : SigId) (m : Msg) (j : SigId) :
     (s.deliverTo i m).sigs[j]? =
-      if i = j then (s.sigs[j]?).map (fun g => { g with slot := some m, st := .ok }) else s.sigs[j]? := by
+      if i = j then (s.sigs[j]?).map (fun g => { g with slot := some m, claimed := true }) else s.sigs[j]? := by
   unfold deliverTo
   split
   · rename_i h; split
@@ -82,7 +82,21 @@ theorem deliverTo_get (i : SigId) (m : Msg) (j : SigId) :
     · rfl
   · rename_i g h
     simp only [setCust_get]
-    rw [finalize_get, setSig_get]
+    rw [setSig_get]
+    split
+    · subst_vars; simp [h]
+    · rfl
+
+theorem claimFrom_get (i j : SigId) :
+    (s.claimFrom i).sigs[j]? =
+      if i = j then (s.sigs[j]?).map (fun g => { g with slot := none, claimed := true }) else s.sigs[j]? := by
+  unfold claimFrom
+  split
+  · rename_i h; split
+    · subst_vars; simp [h]
+    · rfl
+  · rename_i g h
+    rw [setSig_get]
     split
     · subst_vars; simp [h]
     · rfl
